@@ -4,21 +4,25 @@ Request:  `c11 <topic hex> <A>:<ver>:<off>:<hwm> <bodyA hex> <B>:<ver>:<off>:<hw
 Answer:   `model=<resA> <unread> <resB> <same|diff> holds=<0|1>`
 `model`: Model/ConnOps.lean run on the stream frame(1,bodyA) ++ frame(2,bodyB); `unread` = bytes of frame A left on
 the stream after A; `same` = B's outcome equals B's outcome on a fresh connection.
-`holds` (the property monitor, evaluated on the IMPLEMENTATION's output, no model involved): if A ended with ok or a
-kafka error then nothing of A's frame is left unread and B behaved as on a fresh connection; if A ended with another
-error then B failed.
+`holds` (the property monitor, evaluated on the IMPLEMENTATION's output, no model involved): A's frame is an encoding
+of the Kafka layout (Spec/ConnFrames.lean) and A's result is acceptable for it (`specJudge`: no non-kafka failure on a
+well-formed frame, a reported code is one of the frame's codes); if A ended with ok or a kafka error then nothing of
+A's frame is left unread and B behaved as on a fresh connection; if A ended with another error then B failed.
 -/
 import Oracle.ConnCommon
 
 namespace KV.OracleC11
 open KV KV.Reader KV.ConnOps KV.OracleConn
 
-def monitor (impl : String) : Bool :=
+def monitor (a : OpInst) (impl : String) : Option Bool :=
   match words impl with
-  | [a, unread, b, same] =>
-    isDone a && isDone b &&
-    (if isFailStr a then isFailStr b else unread == "0" && same == "same")
-  | _ => false
+  | [ra, unread, rb, same] =>
+    match specJudge a ra with
+    | none => none
+    | some okA =>
+      some (okA && isDone ra && isDone rb &&
+        (if isFailStr ra then isFailStr rb else unread == "0" && same == "same"))
+  | _ => some false
 
 def model (topic : Bytes) (a b : OpInst) : Option String :=
   let fa := frame 1 a.body
@@ -39,9 +43,10 @@ def step (line : String) : String :=
     | ["c11", t, sa, ha, sb, hb] =>
       match ofHex t, parseInst sa ha, parseInst sb hb with
       | some topic, some a, some b =>
-        match model topic a b with
-        | some m => s!"model={m} holds={if monitor impl then 1 else 0}"
-        | none => "bad-op"
+        match model topic a b, monitor a impl with
+        | some m, some h => s!"model={m} holds={if h then 1 else 0}"
+        | none, _ => "bad-op"
+        | _, none => "bad-frame: body A is not an encoding of the Spec layout"
       | _, _, _ => "bad-args"
     | _ => "bad-request"
   | _ => "bad-line"
